@@ -41,7 +41,7 @@ RULE = ('surf cases come in two parts per rendered formula: "sem" (governed; onl
         'args), all literal kinds incl. numeric-looking text, random redundant parentheses, white space, name case, '
         'environments drawn from the pool, a fraction with a needed parenthesis dropped (code part only); literal '
         'formulas over a hostile character pool incl. non-BMP; raw: pinned-test style strings, arrays, white space, '
-        'random character mutations; py: random token lists of the Python fragment. Exponent subtrees are kept small. '
+        'random character mutations; a deterministic family of arithmetic at the kernel outcome boundaries (float pow overflow, complex results, zero divisors in every spelling, huge-but-finite integers) as literal/literal, literal/cell, cell/literal, cell/cell; py: random token lists of the Python fragment. Exponent subtrees are kept small. '
         'Non-trivial: at least one operator or call (surf/raw) or two tokens (py).')
 ASSUMPTIONS = [
     'openpyxl\'s tokenizer (character level) is outside the model: the model starts from its token stream, and for '
@@ -717,6 +717,12 @@ def value_diff(ival, mval):
     approximate: numbers within 1e-9 relative, anything else derived from an approximate number is not compared)"""
     if mval == '?':
         return None
+    if ival.startswith('!'):
+        if mval.startswith('~n:'):
+            # an exception where the model holds an approximate NUMBER: integers beyond the double range reaching
+            # float conversion (=10^400+1 raises OverflowError on the pinned tree) — outside Ops' stated domain (C10)
+            return None
+        return f'value: implementation {ival} model {core.show(mval.lstrip("~"))}'
     if mval.startswith('~'):
         m = mval[1:]
         if m.startswith('n:') and ival.startswith('n:'):
@@ -1089,6 +1095,53 @@ def random_pyexpr(rng, depth):
     return random_pyexpr(rng, depth - 1) + [op] + random_pyexpr(rng, depth - 1)
 
 
+def _lit(text):
+    return ['N', text]
+
+
+# arithmetic at the outcome boundaries of the numeric kernels (overflow, complex, zero division, huge-but-finite
+# integers): (operator, left, right), each operand = (literal tree, python value for the cell spelling)
+BOUNDARY = [
+    ('pow', (_lit('2.5'), 2.5), (_lit('1000'), 1000)),                 # float pow overflow -> #NUM!
+    ('pow', (_lit('10.5'), 10.5), (_lit('400'), 400)),
+    ('pow', (_lit('1.0001'), 1.0001), (_lit('10000000'), 10000000)),
+    ('pow', (['U', _lit('2.5')], -2.5), (_lit('1001'), 1001)),
+    ('mul', (_lit('1E308'), 1e308), (_lit('10'), 10)),                 # float * overflow (inf: not decided)
+    ('add', (_lit('1.5E308'), 1.5e308), (_lit('1.5E308'), 1.5e308)),
+    ('pow', (['U', _lit('8')], -8), (_lit('0.5'), 0.5)),               # complex -> #NUM!
+    ('pow', (['U', _lit('8')], -8), (['B', 'div', _lit('1'), _lit('3')], 1 / 3)),
+    ('pow', (['U', _lit('0.5')], -0.5), (_lit('1.5'), 1.5)),
+    ('pow', (['U', _lit('8')], -8), (_lit('2'), 2)),                   # not complex
+    ('div', (_lit('1'), 1), (_lit('0'), 0)),                           # zero divisor in every spelling -> #DIV/0!
+    ('div', (_lit('1'), 1), (_lit('0.0'), 0.0)),
+    ('div', (_lit('2.5'), 2.5), (['U', _lit('0')], 0)),
+    ('div', (_lit('1'), 1), (['%', _lit('0')], 0.0)),
+    ('div', (_lit('0'), 0), (_lit('0'), 0)),
+    ('div', (_lit('0.0'), 0.0), (_lit('00'), 0)),
+    ('pow', (_lit('0'), 0), (['U', _lit('1')], -1)),                   # 0 ^ negative -> #DIV/0!
+    ('pow', (_lit('0.0'), 0.0), (['U', _lit('0.5')], -0.5)),
+    ('pow', (_lit('0'), 0), (_lit('0'), 0)),
+    ('pow', (_lit('2'), 2), (_lit('200'), 200)),                       # huge but finite integers
+    ('pow', (_lit('10'), 10), (_lit('400'), 400)),
+    ('mul', (_lit('1267650600228229401496703205376'), 2 ** 100), (_lit('1267650600228229401496703205376'), 2 ** 100)),
+    ('div', (['B', 'pow', _lit('2'), _lit('200')], 2 ** 200), (_lit('1267650600228229401496703205376'), 2 ** 100)),
+    ('sub', (['B', 'pow', _lit('2'), _lit('200')], 2 ** 200), (_lit('1'), 1)),
+    ('div', (_lit('4'), 4), (_lit('2'), 2)),                           # int / int -> integral float
+    ('pow', (_lit('2'), 2), (['U', _lit('1')], -1)),
+    ('pow', (_lit('4'), 4), (_lit('0.5'), 0.5)),
+]
+
+
+def boundary_cases():
+    for op, (ll, lv), (rl, rv) in BOUNDARY:
+        env = {'A1': core.enc(lv), 'B2': core.enc(rv), 'C3': 'n:1/1'}
+        for l, r in ((ll, rl), (ll, ['R', 'B2']), (['R', 'A1'], rl), (['R', 'A1'], ['R', 'B2'])):
+            t = ['B', op, l, r]
+            yield from both(minimal_parens(t), env=env)
+            yield from both(minimal_parens(['B', 'add', t, _lit('1')]), env=env)
+            yield from both(minimal_parens(['U', ['P', t]]), env=env)
+
+
 def surf_case(s, ws=None, env=None, part='sem'):
     return {'k': 'surf', 's': s, 'ws': ws, 'env': env if env is not None else ENV0, 'part': part}
 
@@ -1195,6 +1248,8 @@ def cases(tier, rng):
                      (['U', ['F', 'SUM', [['N', '1'], ['N', '2']]]], ['N', '2'])):
             yield from both(minimal_parens(['B', op, l, r]))
             yield from both(['P', ['B', op, ['P', l] if l[0] == 'U' else l, ['P', r] if r[0] == 'U' else r]])
+    # --- kernel outcome boundaries: literal/literal, literal/cell, cell/literal, cell/cell
+    yield from boundary_cases()
     # --- every function with a dedicated emitter (live) and a sample of library functions, in every operand position
     for call in sample_calls():
         yield from both(call)
